@@ -266,6 +266,19 @@ func ruleTAB1(w *World) []Ob {
 					}
 				}
 			})
+			if parse != nil {
+				always := true
+				allInstrs(gen, func(in ssa.Instruction) {
+					if r, ok := in.(*ssa.Return); ok && !parse.Block().Dominates(r.Block()) {
+						always = false
+					}
+				})
+				if always {
+					l.ok(p.FuncID(gen), "every row is parsed in the current parser state", p.InstrPos(parse), "the Parse call dominates every return of generate (no cached or skipped result)", true, "parse-always")
+				} else {
+					l.bad(p.FuncID(gen), "every row is parsed in the current parser state", p.InstrPos(parse), "generate can return without calling Parse for this row (cache / shortcut): the parser's state learnt from earlier rows (indent unit, heading mode) is then not applied to it", "parse-always")
+				}
+			}
 			switch {
 			case parse == nil || he == nil:
 				l.bad(p.FuncID(gen), "row and error handed to handleErr", p.Pos(gen.Pos()), "generate does not call Parse and handleErr", "map")
@@ -1032,8 +1045,10 @@ func ruleTAB6(w *World) []Ob {
 				}
 				src := describeValue(resolve(st.Val))
 				construct := "field " + f + " of the grower"
-				want := f
-				okSrc := src == want
+				okSrc := false
+				if prm, isP := resolve(st.Val).(*ssa.Parameter); isP && prm.Name() == f {
+					okSrc = true
+				}
 				if f == "enabledValidation" {
 					if b, isC := constBool(st.Val); isC && !b {
 						okSrc = true
@@ -1153,7 +1168,8 @@ func tab6Spreader(p *Prog, l *obs, cl *ssa.Function) {
 }
 
 func tab6Grower(p *Prog, l *obs, cl *ssa.Function) {
-	var problems []string
+	var problems, nopProblems []string
+	sawReal := false
 	n := 0
 	allInstrs(cl, func(in ssa.Instruction) {
 		r, ok := in.(*ssa.Return)
@@ -1179,9 +1195,7 @@ func tab6Grower(p *Prog, l *obs, cl *ssa.Function) {
 				}
 			}
 		}
-		switch {
-		case strings.HasPrefix(name, "newNopGrower") && side == "true":
-		case strings.HasPrefix(name, "newGrower") && side == "false":
+		if strings.HasPrefix(name, "newGrower") {
 			// (last, intermedial, dryrun) in order
 			var got []string
 			for _, a := range call.Common().Args {
@@ -1189,18 +1203,32 @@ func tab6Grower(p *Prog, l *obs, cl *ssa.Function) {
 			}
 			if len(got) != 3 || got[0] != "lastNodeFormat" || got[1] != "intermedialNodeFormat" || got[2] != "dryrun" {
 				problems = append(problems, "newGrower* receives ("+strings.Join(got, ", ")+") instead of (lastNodeFormat, intermedialNodeFormat, dryrun)")
+			} else {
+				sawReal = true
 			}
+		}
+		switch {
+		case strings.HasPrefix(name, "newNopGrower") && side == "true":
+		case strings.HasPrefix(name, "newGrower") && side == "false":
 		default:
-			problems = append(problems, name+" is returned on the non-default-encoding="+side+" side")
+			nopProblems = append(nopProblems, name+" is returned on the non-default-encoding="+side+" side")
 		}
 	})
-	if n != 2 {
-		problems = append(problems, fmt.Sprintf("%d returns, expected 2", n))
+	if !sawReal {
+		problems = append(problems, "no return of newGrower*(lastNodeFormat, intermedialNodeFormat, dryrun)")
 	}
 	if len(problems) > 0 {
-		l.bad(p.FuncID(cl), "grower factory: no-op only for a non-default encoding", p.Pos(cl.Pos()), strings.Join(dedupSorted(problems), "; "), "factory")
+		l.bad(p.FuncID(cl), "grower factory: the real grower gets formats and dry-run flag", p.Pos(cl.Pos()), strings.Join(dedupSorted(problems), "; "), "factory")
 	} else {
-		l.ok(p.FuncID(cl), "grower factory: no-op only for a non-default encoding", p.Pos(cl.Pos()), "encode ≠ default → no-op grower; otherwise newGrower*(last, intermedial, dryrun)", true, "factory")
+		l.ok(p.FuncID(cl), "grower factory: the real grower gets formats and dry-run flag", p.Pos(cl.Pos()), "newGrower*(last, intermedial, dryrun) for the default encoding", true, "factory")
+	}
+	if n != 2 {
+		nopProblems = append(nopProblems, fmt.Sprintf("%d returns, expected one per side of `encode != default`", n))
+	}
+	if len(nopProblems) > 0 {
+		l.bad(p.FuncID(cl), "grower factory: no-op exactly for a non-default encoding", p.Pos(cl.Pos()), strings.Join(dedupSorted(nopProblems), "; "), "factory-nop")
+	} else {
+		l.ok(p.FuncID(cl), "grower factory: no-op exactly for a non-default encoding", p.Pos(cl.Pos()), "encode ≠ default → no-op grower, encode = default → real grower", true, "factory-nop")
 	}
 }
 
@@ -1337,6 +1365,41 @@ func ruleTAB7(w *World) []Ob {
 					}
 				}
 			})
+			printed := false
+			allInstrs(m, func(in ssa.Instruction) {
+				c, ok := in.(*ssa.Call)
+				if !ok || !isStderrWrite(c.Common()) {
+					return
+				}
+				carries := false
+				for _, a := range c.Common().Args[1:] {
+					if elems, ok := variadicElems(a); ok {
+						for _, e := range elems {
+							if stripConv(e) == ssa.Value(run) {
+								carries = true
+							}
+						}
+					}
+				}
+				if !carries {
+					return
+				}
+				only := true
+				for _, g := range guardsOf(c.Block()) {
+					tv, nonNil, ok := nilTest(g.Cond, g.Pol)
+					if !(ok && nonNil && stripConv(tv) == ssa.Value(run)) {
+						only = false
+					}
+				}
+				if only {
+					printed = true
+				}
+			})
+			if printed {
+				l.ok("cmd/gtree.main", "diagnostic on stderr", p.InstrPos(run), "the error of app.Run is written to os.Stderr whenever it is non-nil", true, "exit")
+			} else {
+				l.bad("cmd/gtree.main", "diagnostic on stderr", p.InstrPos(run), "the error returned by app.Run is not written to os.Stderr on every err != nil path (it is printed only under further conditions, or not at all): some failures exit non-zero without a diagnostic", "exit")
+			}
 			if exits {
 				l.ok("cmd/gtree.main", "exit status", p.InstrPos(run), "os.Exit(non-zero) on the err != nil side of app.Run", true, "exit")
 			} else {
